@@ -29,7 +29,9 @@ def uniform (low high : Rat) (n : Int) (endpoint em : Bool) : Except String (Dis
 
 /-- the values of one factor of `gaussian(…)` (`numpy.linspace` with its default `endpoint=True`) -/
 def gaussianValues (sigma limit center : Rat) (n : Int) : Except String (List Rat) :=
-  linspaceI (gaussLow sigma limit center n) (gaussHigh sigma limit center n) (gaussNum sigma limit center n) true
+  -- a single sample sits at the centre (`numpy.linspace` with one sample would return the lower limit)
+  if gaussSingle sigma limit center n then .ok [center]
+  else linspaceI (gaussLow sigma limit center n) (gaussHigh sigma limit center n) (gaussNum sigma limit center n) true
 
 /-- `DistributionFromValues.__neg__` : values negated, weights and flag kept -/
 def neg {ω} (d : Dist ω) : Dist ω := { d with values := d.values.map fun v => -v }
